@@ -21,6 +21,7 @@ package main
 
 import (
 	"fmt"
+	"io"
 	"net"
 	"os"
 	"sort"
@@ -47,6 +48,84 @@ type c19Cfg struct {
 	// after the mesh has formed: stream this many tagged, numbered records over every
 	// connection in both directions, the receivers starting 200 ms late
 	StreamRecs int
+	// mode "slow": party SlowParty reaches the leader through an in-process TCP forwarder that
+	// delays the leader -> party direction by SlowMs (it joins with the forwarder's address as
+	// the leader's address); all parties start Connect together
+	SlowParty int
+	SlowMs    int
+}
+
+// c19Forwarder: a TCP forwarder to [target]; client -> target is copied at once, target ->
+// client is delivered [delay] late (order and pipelining preserved).
+type c19Forwarder struct {
+	l     net.Listener
+	mu    sync.Mutex
+	conns []net.Conn
+}
+
+func c19NewForwarder(target string, delay time.Duration) (*c19Forwarder, error) {
+	l, err := net.Listen("tcp", "127.0.0.1:0")
+	if err != nil {
+		return nil, err
+	}
+	f := &c19Forwarder{l: l}
+	go func() {
+		for {
+			cl, err := l.Accept()
+			if err != nil {
+				return
+			}
+			up, err := net.Dial("tcp", target)
+			if err != nil {
+				cl.Close()
+				continue
+			}
+			f.mu.Lock()
+			f.conns = append(f.conns, cl, up)
+			f.mu.Unlock()
+			go func() { io.Copy(up, cl); up.Close() }()
+			type chunk struct {
+				b  []byte
+				at time.Time
+			}
+			ch := make(chan chunk, 1024)
+			go func() {
+				defer close(ch)
+				for {
+					buf := make([]byte, 32768)
+					n, err := up.Read(buf)
+					if n > 0 {
+						ch <- chunk{buf[:n], time.Now().Add(delay)}
+					}
+					if err != nil {
+						return
+					}
+				}
+			}()
+			go func() {
+				for c := range ch {
+					if d := time.Until(c.at); d > 0 {
+						time.Sleep(d)
+					}
+					if _, err := cl.Write(c.b); err != nil {
+						break
+					}
+				}
+				cl.Close()
+			}()
+		}
+	}()
+	return f, nil
+}
+
+func (f *c19Forwarder) Addr() string { return f.l.Addr().String() }
+func (f *c19Forwarder) Close() {
+	f.l.Close()
+	f.mu.Lock()
+	for _, c := range f.conns {
+		c.Close()
+	}
+	f.mu.Unlock()
 }
 
 type c19Table struct {
@@ -195,12 +274,12 @@ func c19Run(cfg c19Cfg, rng *RNG) ([]c19Party, error) {
 			time.Sleep(d)
 			touch()
 		})
-	case "late":
+	case "late", "slow":
 		// runs concurrently with other runs: leaves the global hook alone
 	default:
 		p2p.SetVerifYield(func(site string) { touch() })
 	}
-	if cfg.Mode != "late" {
+	if cfg.Mode != "late" && cfg.Mode != "slow" {
 		defer p2p.SetVerifYield(nil)
 	}
 
@@ -213,7 +292,16 @@ func c19Run(cfg c19Cfg, rng *RNG) ([]c19Party, error) {
 		if cfg.JoinGapMs > 0 {
 			time.Sleep(time.Duration(rng.Intn(cfg.JoinGapMs+1)) * time.Millisecond)
 		}
-		nws[j], err = p2p.Join(addrs[0], addrs[j], j, k)
+		leaderAddr := addrs[0]
+		if cfg.Mode == "slow" && j == cfg.SlowParty {
+			fwd, ferr := c19NewForwarder(addrs[0], time.Duration(cfg.SlowMs)*time.Millisecond)
+			if ferr != nil {
+				return nil, ferr
+			}
+			defer fwd.Close()
+			leaderAddr = fwd.Addr()
+		}
+		nws[j], err = p2p.Join(leaderAddr, addrs[j], j, k)
 		if err != nil {
 			for _, nw := range nws {
 				if nw != nil {
@@ -297,8 +385,8 @@ func c19Run(cfg c19Cfg, rng *RNG) ([]c19Party, error) {
 		close(release)
 		touch()
 		waitRest(250*time.Millisecond, 5*time.Second)
-	} else if cfg.Mode == "late" {
-		st := time.Duration(cfg.StaggerMs) * time.Millisecond
+	} else if cfg.Mode == "late" || cfg.Mode == "slow" {
+		st := time.Duration(cfg.StaggerMs+cfg.SlowMs) * time.Millisecond
 		waitRest(st+1500*time.Millisecond, st+8*time.Second)
 	} else {
 		waitRest(1500*time.Millisecond, 8*time.Second)
@@ -728,6 +816,8 @@ func runC19(c *Ctx) error {
 				who = "leader"
 			}
 			fkey = "c19:late-start:" + who + ":" + sym
+		case cfg.Mode == "slow":
+			fkey = fmt.Sprintf("c19:slow-leader-link:party%d:%s", cfg.SlowParty, sym)
 		case f11:
 			fkey = "c19:acceptConn:need-before-addPeer:" + cfg.Mode + ":" + sym
 		default:
@@ -737,6 +827,10 @@ func runC19(c *Ctx) error {
 		if cfg.Mode == "late" {
 			what = fmt.Sprintf("n=%d k=%d join order %v: all parties joined, party %d called Connect %d ms after the others: %v",
 				cfg.N, cfg.K, cfg.Order, cfg.Late, cfg.StaggerMs, symptoms)
+		}
+		if cfg.Mode == "slow" {
+			what = fmt.Sprintf("n=%d k=%d join order %v: data from the leader reaches party %d %d ms late (TCP forwarder on its link to the leader), all parties start Connect together: %v",
+				cfg.N, cfg.K, cfg.Order, cfg.SlowParty, cfg.SlowMs, symptoms)
 		}
 		c.Fail(fkey, what, map[string]interface{}{"cfg": cfg, "observed": obs.String(), "symptoms": symptoms})
 		if cfg.Mode == "freeze" {
@@ -769,6 +863,13 @@ func runC19(c *Ctx) error {
 		lates = append(lates, c19Cfg{N: sp[0], K: sp[1], Order: c19Perm(c.rng, sp[0], x%3), Mode: "late", Late: sp[2],
 			StaggerMs: c.rng.Range(1200, maxSt), JoinGapMs: []int{0, 150, 400}[x%3],
 			StreamRecs: []int{200000, 150000, 0, 0, 250000, 0, 0, 100000, 0, 0}[x%10]})
+	}
+	// slow-link scenarios: each non-leader party in turn, 3- and 4-party meshes
+	for _, nk := range [][2]int{{3, 1}, {4, 2}} {
+		for sp := 1; sp < nk[0]; sp++ {
+			lates = append(lates, c19Cfg{N: nk[0], K: nk[1], Order: c19Perm(c.rng, nk[0], sp%3), Mode: "slow", Late: -1,
+				SlowParty: sp, SlowMs: c.rng.Range(100, 400)})
+		}
 	}
 	type lateRes struct {
 		res []c19Party
